@@ -221,6 +221,7 @@ PLANS["C03"] = {
            mcrec("directed", 1, True, ports({"chars": 1, "chars1": 2, "bytes": 2}, {"chars": 1, "chars1": 1, "bytes": 1, "bytes1": 1})),
            mcrec("directed", 1, False, ports({"chars": 1}, {"chars": 1, "bytes": 1})),
            mcrec("osc", 1, True, ports({"chars": 2}, {"chars": 1, "bytes": 1})),
+           mcrec("oscx", {"quick": 2, "thorough": 3}, True, ports({"chars": 2}, {"chars": 1, "bytes": 3})),
            mcrec("pairs", 1, True, ports({"chars": 1, "chars1": 2, "bytes": 3}, {"chars": 1, "chars1": 1, "bytes": 1, "bytes1": 2})),
            mcrec("pairs", 1, False, ports({"chars": 1}, {"chars": 1, "chars1": 2, "bytes": 2}))],
     "gen": [gen("recsoup", 600, 20000, chars=60), gen("recsoup", 200, 6000, chars=200), walk("", 100, 3000, port="chars"),
@@ -232,7 +233,9 @@ PLANS["C03"] = {
 }
 PLANS["C19"] = {
     "props": ["C19"], "ops": ["feed", "title", "icon"],
-    "mc": [mcrec("osc", 1, True, ports({"chars": 1, "chars1": 2, "bytes": 1, "bytes1": 3}, {"chars": 1, "chars1": 1, "bytes": 1, "bytes1": 1})),
+    "mc": [mcrec("oscx", {"quick": 2, "thorough": 4}, True, ports({"chars": 1, "bytes": 2, "bytes1": 5}, {"chars": 1, "chars1": 3, "bytes": 2, "bytes1": 7})),
+           mcrec("oscx", {"quick": 1, "thorough": 3}, False, ports({"chars": 1}, {"chars": 1, "bytes": 3})),
+           mcrec("osc", 1, True, ports({"chars": 1, "chars1": 2, "bytes": 1, "bytes1": 3}, {"chars": 1, "chars1": 1, "bytes": 1, "bytes1": 1})),
            mcrec("osc", 1, False, ports({"chars": 1}, {"chars": 1, "chars1": 1}))],
     "gen": [gen("recsoup", 400, 12000, chars=60), gen("recsoup", 200, 6000, chars=60, port="bytes"), walk("C19", 120, 3000, port="chars"),
             walk("C19", 60, 1500, port="bytes"), walk("C19", 60, 1500)],
